@@ -342,6 +342,7 @@ type Params struct {
 	Workers int    `json:"workers"`
 	DotDirs bool   `json:"dot_dirs"` // the input directory and a sub-directory have names ending in .bin / .dat
 	Small   bool   `json:"small"`    // columns mode: 12500-byte files (race pass)
+	Stale   bool   `json:"stale"`    // sched mode: a longer report of an earlier run already exists at the report path
 }
 
 func SubMain(h Hooks) {
@@ -629,6 +630,10 @@ func handle(h Hooks, t e1.Task) (*e1.Result, map[uint64]struct{}) {
 	cfg.NewExec = func() (func(), func(*vsched.Exec) explore.Verdict) {
 		execNo++
 		rep := filepath.Join(base, fmt.Sprintf("report%d.csv", execNo))
+		if p.Stale {
+			// a longer report of an earlier run is already there: it must be replaced, not overwritten in place
+			_ = os.WriteFile(rep, []byte(sh.Header+strings.Repeat("stale.bin, 0.500000, 0.500000\n", 40)), 0o600)
+		}
 		os.Args = []string{"rddetector", "-i", filepath.Join(base, inDir), "-o", rep, "-n", fmt.Sprint(p.Workers)}
 		if f := flag.Lookup("v"); f != nil {
 			_ = flag.Set("v", "false")
@@ -711,7 +716,7 @@ func Run(ctx *common.Ctx) int {
 			if quick && F == 3 && nW == 3 {
 				shards = 4
 			}
-			p, _ := json.Marshal(Params{Mode: "sched", Scale: "2E4", Files: F, Workers: nW})
+			p, _ := json.Marshal(Params{Mode: "sched", Scale: "2E4", Files: F, Workers: nW, Stale: (F+nW)%2 == 1})
 			for sh := 0; sh < shards; sh++ {
 				tasks = append(tasks, e1.Task{Check: "C13", Name: fmt.Sprintf("c13/sched/F%d/n%d/b%d", F, nW, bound), Params: p, Bound: bound, W: 4, Shard: sh, NShards: shards, CostAll: true})
 			}
@@ -818,6 +823,10 @@ func Run(ctx *common.Ctx) int {
 			dir := filepath.Join(ctx.Work, fmt.Sprintf("c13e2e%d", ci))
 			inDir, _, data := makeTree(dir, c.files, fileSize(c.scale), c.dot)
 			rep := filepath.Join(dir, "out", "report.csv")
+			if ci%2 == 1 {
+				_ = os.MkdirAll(filepath.Dir(rep), 0o755)
+				_ = os.WriteFile(rep, []byte(strings.Repeat("stale-row-of-an-earlier-longer-report.bin, 0.123456, 0.654321\n", 5000)), 0o600)
+			}
 			cmd := exec.Command(det, "-i", filepath.Join(dir, inDir), "-o", rep, "-n", fmt.Sprint(c.workers))
 			cmd.Dir = dir
 			cmd.Stdout, cmd.Stderr = io.Discard, io.Discard
